@@ -115,7 +115,18 @@ class Doc(ast.NodeTransformer):
         return n
 
 
-KINDS = {"flip": Flip, "aug": Aug, "ifnot": IfNot, "const": Const, "temp": Temp, "doc": Doc, "rename": None, "mix": None}
+class Wrap(ast.NodeTransformer):
+    """nest the body of every loop one level deeper (`if True:`): only the depth changes"""
+
+    def visit_For(self, n):
+        self.generic_visit(n)
+        n.body = [ast.If(test=ast.Constant(value=True), body=n.body, orelse=[])]
+        return n
+
+    visit_While = visit_For
+
+
+KINDS = {"wrap": Wrap, "flip": Flip, "aug": Aug, "ifnot": IfNot, "const": Const, "temp": Temp, "doc": Doc, "rename": None, "mix": None}
 
 
 def transform(src: str, kind: str, only_func: str | None = None) -> str:
@@ -172,7 +183,7 @@ def job(args):
 
 def main():
     args = [a for a in sys.argv[1:] if not a.startswith("--")]
-    kinds = list(KINDS)
+    kinds = [k for k in KINDS if k != "wrap"]  # `wrap` (artificial extra nesting) only on request
     for a in sys.argv[1:]:
         if a.startswith("--kinds"):
             kinds = a.split("=", 1)[1].split(",")
